@@ -183,3 +183,23 @@ Example C09_ex_noattr :
   map (fun pv => keeps (is_attr (s"-")) (fst pv)) (leaves ex9) = [false; true; true; false; true; true; true] /\
   good ex9r /\ no_lists (VMap [(s"a", VMap [(s"b", VInt 1)])]) = true.
 Proof. vm_compute. repeat split. Qed.
+
+(* ================================================================== tie to the code (regenerated on every run)
+   Gen/Pure_gen.v holds go2v's statement-by-statement translation of func getLeafNodes in /repo's CURRENT leafnode.go
+   (recursion on explicit fuel; the out-parameter l threaded as state; attrPrefix, textK and useDotNotation read from the
+   package state).  It IS the model walker [get_leaf_nodes] the theorems above are about: for every fuel above the depth of
+   the value it appends, in the model's order, exactly the model's (path, value) pairs. *)
+From Mxj Require Import Gen.Setters_gen Gen.PureSupport Gen.Pure_gen GenProofs.PureG3.
+
+Theorem C09_leaf_walker_code_is_model : forall mv fuel st path node acc noattr,
+  vd mv < fuel ->
+  exists ns, fn_getLeafNodes fuel st path node mv acc noattr = Ret (acc ++ ns) /\
+             map leaf_pair ns = get_leaf_nodes (g_attrPrefix st) (g_textK st) (g_useDotNotation st) path node mv noattr.
+Proof. exact leaf_nodes_code_is_model. Qed.
+Print Assumptions C09_leaf_walker_code_is_model.
+
+Example C09_leaf_walker_code_nonvacuous :
+  fn_getLeafNodes 6 gstate0 [] []
+    (VMap [(s "doc", VMap [(s "-id", VStr (s "7")); (s "#text", VStr (s "t")); (s "l", VList [VStr (s "x"); VMap [(s "y", VNil)]])])]) [] true
+  = Ret [mk_LeafNode (s "doc") (VStr (s "t")); mk_LeafNode (s "doc.l[0]") (VStr (s "x")); mk_LeafNode (s "doc.l[1].y") VNil].
+Proof. vm_compute. reflexivity. Qed.
